@@ -145,6 +145,9 @@ func Cover(label string)              {}
 func Known(id string, cond bool) bool { return cond }
 func Observe(label string, v any)     {}
 
+// CutBefore: under symgo the function about to call callee returns early; natively a no-op.
+func CutBefore(callee string) {}
+
 // RunReplay runs the harness named in $VP_REPLAY and prints one VP-RESULT line.
 func RunReplay(t *testing.T, hs map[string]func()) {
 	path := os.Getenv("VP_REPLAY")
